@@ -14,13 +14,13 @@ Three parts:
 import concurrent.futures
 import hashlib
 import os
+import re
 import shutil
-import subprocess
 import sys
 from pathlib import Path
 
 from .. import common
-from ..common import NCPU, REPO, coq_eval
+from ..common import NCPU, REPO
 from ..gens import c03 as gens
 
 MANIFEST = {
@@ -47,6 +47,7 @@ NETWORKS = {
 PYTHON = '/usr/bin/python3'
 PRELUDE = 'From Coq Require Import List String.\nFrom Symv Require Import Cats.Layout Cats.Derive Cats.Outline Gen.SchemaSc Gen.SchemaNc.\n' \
 	'Import ListNotations.'
+STRING_RE = re.compile(r'"((?:[^"]|"")*)"')
 STALE = '#!/usr/bin/python\n# stale file left by a previous run\nraise RuntimeError("stale")\n'
 
 
@@ -270,14 +271,31 @@ def regeneration_matrix(check):
 # ---------------------------------------------------------------------------------------------------------------------
 # outline correspondence as text (only to locate a difference; the kernel equality is the obligation)
 
-def outline_difference(check):
+def model_outline_lines(net):
+	"""Lines of render_outline (outline <schema>) evaluated by vm_compute (one Coq string per class, so that printing stays shallow)."""
+	work = common.COQ / 'Cases' / f'c03_{os.getpid()}'
+	work.mkdir(parents=True, exist_ok=True)
 	try:
-		rendered = coq_eval(PRELUDE, [f'render_outline (outline {NETWORKS[net][3]})' for net in NETWORKS], 'c03')
-	except RuntimeError as ex:
-		check.notes.append(f'model outline could not be evaluated: {str(ex)[:300]}')
-		return
-	for net, text in zip(NETWORKS, rendered):
-		model_lines = text.split('\n')
+		path = work / f'outline_{net}.v'
+		path.write_text(
+			f'{PRELUDE}\nOpen Scope string_scope.\nSet Printing Width 1000000.\nSet Printing Depth 10000000.\n'
+			f'Eval vm_compute in map (fun e => String.concat nl (render_entry e)) (outline {NETWORKS[net][3]}).\n', encoding='utf8')
+		status, out = common.run(['coqc', '-Q', str(common.COQ), 'Symv', str(path)], 600)
+		if status != 0:
+			raise RuntimeError(out[-600:])
+		strings = [match.group(1).replace('""', '"') for match in STRING_RE.finditer(out)]
+		return [line for text in strings for line in text.split('\n')]
+	finally:
+		shutil.rmtree(work, ignore_errors=True)
+
+
+def outline_difference(check):
+	for net in NETWORKS:
+		try:
+			model_lines = model_outline_lines(net)
+		except RuntimeError as ex:
+			check.notes.append(f'model outline of {net} could not be evaluated: {str(ex)[:300]}')
+			continue
 		entries = gens.actual_entries(NETWORKS[net][2])
 		actual_lines = gens.render_entries(entries)
 		for entry in entries:
